@@ -106,6 +106,30 @@ CLAIMS.update({
         design='4/C12'),
 })
 
+CLAIMS.update({
+    'C10': dict(
+        text='On every Any<None/FirstFail/LastFail> instantiation: R-ACCESSOR, R-SETONCE (promise set at most once per '
+             'path and only after winning an RMW election, destructor under Valid()), R-LASTFAIL (packed counter '
+             'constants agree), R-SAVEDERR (saved error written only by the CAS winner), election word '
+             'kinds/orders. Which input wins for a schedule is not decided.',
+        technique='path-sensitive typestate rules + constant-agreement checks over clang CFGs of strategy instantiations',
+        design='4/C10'),
+    'C20': dict(
+        text='R-ALLOC: maximum number of heap allocations on any CFG path of each API-step entry, computed over the '
+             'merged -O0 LLVM IR of a probe unit and all library units (SCC condensation per function, call-graph '
+             'closure over direct calls, indirect calls = attribution boundary, frozen allow-list of external '
+             'non-allocating callees): pipeline steps <= 1, Wait*/Get/Strand::Submit/awaiter members == 0, combinator '
+             'registration and completion finite with no allocation inside a loop. Holds for all inputs because it '
+             'is a bound over all paths; allocations behind virtual dispatch are by definition another step\'s.',
+        technique='max-allocation effect analysis over LLVM IR (path maximum on SCC-condensed CFGs + call graph)',
+        design='4/C20'),
+})
+CLAIMS['C09']['text'] = ('On every WhenAll/Join strategy and combinator instantiation: R-ACCESSOR, R-SETONCE, R-CALLBACK '
+                         '(one Consume then one combinator DecRef per input callback), R-SIBLING (already-complete '
+                         'registration branch does what the callback does), R-COUNT (reference count == input count, '
+                         'empty range returns early), election word kinds/orders. The moment and content of '
+                         'completion over interleavings are not decided.')
+
 NOT_YET = {}
 
 
